@@ -450,28 +450,7 @@ func runC04(c *Ctx) {
 
 	// ---------- R-verdict-flow ----------
 	R.Rule("R-verdict-flow", "E4 value flow", "every reply with a computed code takes code, enhanced code and text from dataErrorToStatus applied to THIS transaction's backend result; dataErrorToStatus is positive only for a nil error", 6)
-	allowedInner := regexp.MustCompile(`^(invoke:Session\.Data|<-statusCollector\.status\[.*\]|<-Conn\.dataResult|<-makechan\(1\)|phi\{.*io\.Copy\(Conn\.bdatPipe.*\}|io\.Copy\(Conn\.bdatPipe.*\)#1)$`)
-	for _, site := range c.Sites("reply:dyn") {
-		fn := funcName(site.Parent())
-		if fn == "(*Conn).writeError" || fn == "(*Conn).protocolError" {
-			continue // pass-through helpers: writeError is checked by C17 R-err-passthrough, protocolError's callers by R-reply-const
-		}
-		cc := callCommon(site)
-		if _, isParam := cc.Args[1].(*ssa.Parameter); isParam && replyForwarder(site.Parent()) != nil {
-			continue // reply helper forwarding its caller's code: the call sites are checked by R-reply-const
-		}
-		d := describe(cc.Args[1])
-		m := regexp.MustCompile(`^dataErrorToStatus\((.*)\)#0$`).FindStringSubmatch(d)
-		ok := m != nil && allowedInner.MatchString(m[1])
-		why := "reply code computed from " + d
-		if ok {
-			// enhanced code and text must come from the same call
-			base := strings.TrimSuffix(d, "#0")
-			ok = describe(cc.Args[2]) == base+"#1" && strings.Contains(describeVarargs(cc.Args[3]), base+"#2")
-			why = "enhanced code / text do not come from the same dataErrorToStatus result: " + describe(cc.Args[2]) + " / " + describeVarargs(cc.Args[3])
-		}
-		R.Ob(c.siteKey(site, "verdict source"), c.P.InstrPos(site), ok, why)
-	}
+	ruleVerdictSources(c)
 	ruleDataErrorToStatus(c)
 	// the BDAT result channel read by the LAST branch is the one created with the pipe
 	for _, site := range c.Sites("st:Conn.dataResult") {
@@ -480,6 +459,8 @@ func runC04(c *Ctx) {
 		R.Ob(c.siteKey(site, "dataResult is a fresh buffered channel"), c.P.InstrPos(site), describe(v) == "makechan(1)", "dataResult assigned "+describe(v))
 	}
 
+	R.Rule("R-status-fill-shape", "E1", "in LMTP every accepted recipient occurrence gets a reply: fillRemaining loops a non-blocking send over every recipient channel until it is full", 2)
+	ruleFillShape(c)
 	ruleResetEffects(c)
 	R.Rule("R-state-writers", "who-may-write", "the delivery result channel is installed only together with the pipe in handleBdat", 1)
 	c.obWriters("Conn.dataResult", "one result channel per chunked message", "(*Conn).handleBdat")
@@ -580,7 +561,17 @@ func ruleReplyFormat(c *Ctx) {
 			R.Ob(key, c.P.InstrPos(in), false, "reply line format "+format+" does not start with the code followed by '-' or ' '")
 		}
 		// printed text must index the LF-split text
-		R.Ob(c.siteKey(in, "PrintfLine text is LF-split"), c.P.InstrPos(in), strings.Contains(args, `strings.Split(strings.Join(param3,"\n"),"\n")[`), "printed text is "+args)
+		lfSplit := strings.Contains(args, `strings.Split(strings.Join(param3,"\n"),"\n")[`)
+		if !lfSplit {
+			// any container built only from strings.Split(_, "\n") results (append loops, phis, re-slicing)
+			vs := varargValues(cc.Args[2])
+			if len(vs) > 0 {
+				if cont := indexedContainer(vs[len(vs)-1]); cont != nil {
+					lfSplit = builtFromLFSplits(cont, map[ssa.Value]bool{}, 0)
+				}
+			}
+		}
+		R.Ob(c.siteKey(in, "PrintfLine text is LF-split"), c.P.InstrPos(in), lfSplit, "printed text is "+args)
 	})
 	res := CountPathsOpt(f, CountOpts{Count: func(in ssa.Instruction) (int, int) {
 		if isStaticCall(in, "(*textproto.Writer).PrintfLine") {
@@ -715,4 +706,99 @@ func ruleReplyCountFor(c *Ctx, fns []string) {
 		R.Ob(fn+"/final replies per path", c.P.Pos(f.Pos()), ok, d)
 	}
 	R.Extra["acyclic_paths_enumerated"] = totalPaths
+}
+
+// indexedContainer: for a value loaded as container[i] returns the container.
+func indexedContainer(v ssa.Value) ssa.Value {
+	v = stripConv(v)
+	switch x := v.(type) {
+	case *ssa.UnOp:
+		if ia, ok := x.X.(*ssa.IndexAddr); ok {
+			return ia.X
+		}
+	case *ssa.Index:
+		return x.X
+	case *ssa.MakeInterface:
+		return indexedContainer(x.X)
+	case *ssa.Extract:
+		// range over a slice yields next#.. only for maps/strings; slices use IndexAddr
+	}
+	return nil
+}
+
+// builtFromLFSplits: every element of the slice value comes from a strings.Split(_, "\n") result.
+func builtFromLFSplits(v ssa.Value, seen map[ssa.Value]bool, depth int) bool {
+	if depth > 12 {
+		return false
+	}
+	v = stripConv(v)
+	if seen[v] {
+		return true // a cycle through a loop phi adds nothing new
+	}
+	seen[v] = true
+	switch x := v.(type) {
+	case *ssa.Const:
+		return x.Value == nil // nil slice
+	case *ssa.Call:
+		if g := staticCallee(&x.Call); g != nil && qualFuncName(g) == "strings.Split" {
+			k, ok := constString(x.Call.Args[1])
+			return ok && k == "\n"
+		}
+		if b, ok := x.Call.Value.(*ssa.Builtin); ok && b.Name() == "append" && len(x.Call.Args) == 2 {
+			return builtFromLFSplits(x.Call.Args[0], seen, depth+1) && builtFromLFSplits(x.Call.Args[1], seen, depth+1)
+		}
+	case *ssa.Phi:
+		for _, e := range x.Edges {
+			if !builtFromLFSplits(e, seen, depth+1) {
+				return false
+			}
+		}
+		return true
+	case *ssa.Slice:
+		return builtFromLFSplits(x.X, seen, depth+1)
+	case *ssa.UnOp:
+		if a, ok := x.X.(*ssa.Alloc); ok {
+			ok2 := false
+			for _, r := range referrers(a) {
+				if st, isSt := r.(*ssa.Store); isSt && st.Addr == a {
+					if !builtFromLFSplits(st.Val, seen, depth+1) {
+						return false
+					}
+					ok2 = true
+				}
+			}
+			return ok2
+		}
+	}
+	return false
+}
+
+// ruleVerdictSources (C04 R-verdict-flow, C06): a computed reply takes code, enhanced code and text from
+// dataErrorToStatus applied to the backend's own result for this transaction, nothing else is mixed in. For C06 it
+// is the reason why a message within the limit is answered exactly as without a limit: the size check lives in the
+// reader, the handler adds no verdict of its own.
+func ruleVerdictSources(c *Ctx) {
+	R := c.R
+	allowedInner := regexp.MustCompile(`^(invoke:Session\.Data|<-statusCollector\.status\[.*\]|<-Conn\.dataResult|<-makechan\(1\)|phi\{.*io\.Copy\(Conn\.bdatPipe.*\}|io\.Copy\(Conn\.bdatPipe.*\)#1)$`)
+	for _, site := range c.Sites("reply:dyn") {
+		fn := funcName(site.Parent())
+		if fn == "(*Conn).writeError" || fn == "(*Conn).protocolError" {
+			continue // pass-through helpers: writeError is checked by C17 R-err-passthrough, protocolError's callers by R-reply-const
+		}
+		cc := callCommon(site)
+		if _, isParam := cc.Args[1].(*ssa.Parameter); isParam && replyForwarder(site.Parent()) != nil {
+			continue // reply helper forwarding its caller's code: the call sites are checked by R-reply-const
+		}
+		d := describe(cc.Args[1])
+		m := regexp.MustCompile(`^dataErrorToStatus\((.*)\)#0$`).FindStringSubmatch(d)
+		ok := m != nil && allowedInner.MatchString(m[1])
+		why := "reply code computed from " + d
+		if ok {
+			// enhanced code and text must come from the same call
+			base := strings.TrimSuffix(d, "#0")
+			ok = describe(cc.Args[2]) == base+"#1" && strings.Contains(describeVarargs(cc.Args[3]), base+"#2")
+			why = "enhanced code / text do not come from the same dataErrorToStatus result: " + describe(cc.Args[2]) + " / " + describeVarargs(cc.Args[3])
+		}
+		R.Ob(c.siteKey(site, "verdict source"), c.P.InstrPos(site), ok, why)
+	}
 }
